@@ -189,11 +189,11 @@ def _set_store(kind, root):
         dds.set_store("local", internal_dir=os.path.join(root, "internal"), data_dir=os.path.join(root, "data"))
     elif kind == "local_lru":
         dds.set_store("local", internal_dir=os.path.join(root, "internal"), data_dir=os.path.join(root, "data"), cache_objects=2)
-    elif kind == "dbfs":
+    elif kind in ("dbfs", "dbfs_lru"):
         from vp.fakedbutils import FakeDbutils
 
         _DBFS_ROOT[0] = root
-        dds.set_store("dbfs", internal_dir="dbfs:/internal", data_dir="dbfs:/data", dbutils=FakeDbutils(root))
+        dds.set_store("dbfs", internal_dir="dbfs:/internal", data_dir="dbfs:/data", dbutils=FakeDbutils(root), cache_objects=(2 if kind == "dbfs_lru" else None))
     elif kind == "memory":
         dds.set_store("memory")
     from dds import _api
@@ -249,6 +249,8 @@ def job(arg):
         written = {}  # path -> (tag, value, ref at write time, key)
         case = {"kind": kind, "scenario": sc, "tags": tags}
 
+        applied = [False]
+
         def keep_one(path, fn, tag):
             exp = fn(tag)
             rep.evaluations += 1
@@ -276,7 +278,7 @@ def job(arg):
                     rep.count("verbatim_bytes_checks")
                     if ref.startswith("local.") and (raw != bytes(base) or raw2 != raw):
                         rep.violate("%s/%s: bytes result at %r is not stored verbatim" % (kind, sc, path), case, mechanism="bytes-not-verbatim")
-            elif kind == "dbfs":
+            elif kind in ("dbfs", "dbfs_lru"):
                 rec = os.path.join(root, "dbfs", "data", "_dds_meta", path.lstrip("/"))
                 key = json.load(open(rec))["redirection_key"]
                 ref = json.load(open(os.path.join(root, "dbfs", "internal", "blobs", key + ".meta")))["protocol"]
@@ -289,6 +291,13 @@ def job(arg):
                     rep.count("verbatim_bytes_checks")
                     if ref.startswith("local.") and open(obj, "rb").read() != bytes(exp):
                         rep.violate("%s/%s: bytes result at %r is not stored verbatim" % (kind, sc, path), case, mechanism="bytes-not-verbatim")
+            if tag in ("user_a", "user_b") and ref is not None and isinstance(exp, (UserA, UserB)):
+                # a type with a user-registered codec is written by that codec (or by one registered later for the same type)
+                allowed = {"user_a": {"user.a_file"}, "user_b": {"user.b_generic"}}[tag] | ({"user.greedy_file", "user.greedy"} if applied[0] else set())
+                rep.count("user_codec_write_checks")
+                if ref not in allowed:
+                    rep.violate("%s/%s: a %s value was written with codec %s although the codec %s is registered for its type through the store's registry" % (kind, sc, tag, ref, sorted(allowed)[0]),
+                                case, mechanism="user-codec-not-used")
             written[path] = (tag, exp, ref, key)
 
         def check_reads(label, getter):
@@ -313,6 +322,7 @@ def job(arg):
             keep_one("/c17/%s" % tag, produce, tag)
         check_reads("before", lambda p, k: dds.load(p))
         _apply_scenario(reg, sc)
+        applied[0] = sc != "none"
         _wrap_registry(reg)
         check_reads("after-registration", lambda p, k: dds.load(p))
         for i, tag in enumerate(tags[half:]):
@@ -343,7 +353,7 @@ def job(arg):
         if kind != "memory":
             # store-level fetch by key through a brand-new store object
             st2 = _set_store(kind, root)
-            if kind == "dbfs":
+            if kind in ("dbfs", "dbfs_lru"):
                 r2 = _registry_of(st2)
                 r2.add_file_codec(UserAFileCodec())
                 r2.add_codec(UserBCodec())
@@ -393,13 +403,13 @@ def run(tier, seed):
     rng = core.rng_for(seed, "c17")
     rep.rule = (
         "values %r (str: empty/ASCII/non-ASCII/CRLF/1MB, bytes: empty/all 256 values/1MB, None, ints, nested containers, picklable object, pandas frames, "
-        "types with a user FileCodecProtocol and a user CodecProtocol) x registration scenarios %r applied between writes and reads x stores {local, local+cache, dbfs(fake), memory}; "
+        "types with a user FileCodecProtocol and a user CodecProtocol) x registration scenarios %r applied between writes and reads x stores {local, local+cache, dbfs(fake), dbfs(fake)+cache, memory}; "
         "reads through dds.load in the same process, Store.fetch_blob on a new store object, and dds.load in another process with the extra codecs registered before/after the user codecs; on local stores the metadata file of some blobs is removed (killed writer) and the call repeated under the changed codec selection. "
         "distinct_nontrivial = distinct (store, scenario, value order) runs that wrote >=2 values." % (TAGS, SCENARIOS)
     )
     jobs = []
     reps = 1 if tier == "quick" else 4
-    for kind in ("local", "local_lru", "dbfs", "memory"):
+    for kind in ("local", "local_lru", "dbfs", "dbfs_lru", "memory"):
         for sc in SCENARIOS:
             for r in range(reps):
                 tags = list(TAGS)
